@@ -5,17 +5,26 @@
 EXTENDS Naturals, Sequences, FiniteSets, TLC
 CONSTANTS Names
 VARIABLES chain,     \* Seq([name, enabled]), head first
+          en,        \* the enabled flag of every plugin OBJECT, installed or not: a fresh TestPlugin is enabled, and the flag belongs to
+                     \* the object - installing, removing and re-installing it leave the flag as it is
           res        \* observation of the last call
-vars == <<chain, res>>
+vars == <<chain, en, res>>
 
 InChain == { chain[i].name : i \in 1..Len(chain) }
-Init == chain = <<>> /\ res = "ok"
-Install(n) == n \notin InChain /\ chain' = <<[name |-> n, enabled |-> TRUE]>> \o chain /\ res' = "ok"
-Remove(n) == chain' = SelectSeq(chain, LAMBDA p : p.name # n) /\ res' = "ok"
+Init == chain = <<>> /\ en = [n \in Names |-> TRUE] /\ res = "ok"
+Install(n) == n \notin InChain /\ chain' = <<[name |-> n, enabled |-> en[n]]>> \o chain /\ res' = "ok" /\ UNCHANGED en
+Remove(n) == chain' = SelectSeq(chain, LAMBDA p : p.name # n) /\ res' = "ok" /\ UNCHANGED en
+\* through the registry: getPluginByName(n)->enable() / disable(); reaches installed plugins only
 SetEnabled(n, b) ==
     /\ chain' = [i \in 1..Len(chain) |-> IF chain[i].name = n THEN [chain[i] EXCEPT !.enabled = b] ELSE chain[i]]
+    /\ en' = IF n \in InChain THEN [en EXCEPT ![n] = b] ELSE en
     /\ res' = IF n \in InChain THEN "found" ELSE "missing"
-Next == \E n \in Names : Install(n) \/ Remove(n) \/ SetEnabled(n, TRUE) \/ SetEnabled(n, FALSE)
+\* on the object itself (TestPlugin::enable / disable), whether it is installed or not
+ObjSetEnabled(n, b) ==
+    /\ chain' = [i \in 1..Len(chain) |-> IF chain[i].name = n THEN [chain[i] EXCEPT !.enabled = b] ELSE chain[i]]
+    /\ en' = [en EXCEPT ![n] = b] /\ res' = "ok"
+Next == \E n \in Names : \/ Install(n) \/ Remove(n) \/ SetEnabled(n, TRUE) \/ SetEnabled(n, FALSE)
+                         \/ ObjSetEnabled(n, TRUE) \/ ObjSetEnabled(n, FALSE)
 Spec == Init /\ [][Next]_vars
 
 EnabledNames(c) == [i \in 1..Len(SelectSeq(c, LAMBDA p : p.enabled)) |-> SelectSeq(c, LAMBDA p : p.enabled)[i].name]
@@ -24,6 +33,7 @@ PreOrder(c) == EnabledNames(c)
 PostOrder(c) == RevSeq(EnabledNames(c))
 Count(c) == Len(c)
 
+FlagIsTheObjects == \A i \in 1..Len(chain) : chain[i].enabled = en[chain[i].name]
 NoDup == \A i, j \in 1..Len(chain) : i # j => chain[i].name # chain[j].name
 PostIsReverseOfPre == PostOrder(chain) = RevSeq(PreOrder(chain))
 RemoveExact == [][\A n \in Names : (n \in InChain /\ n \notin { chain'[i].name : i \in 1..Len(chain') })
